@@ -3,6 +3,7 @@
 package harness
 
 import (
+	"bytes"
 	"encoding/json"
 	"errors"
 	"fmt"
@@ -46,6 +47,7 @@ type ClientOp struct {
 
 type World struct {
 	S        *Sim
+	chunkSeen map[*Call]bool
 	isFatal  func() bool
 	tainted  map[uint64]map[[2]uint64]bool // node -> labels of received snapshot files that took a chunk of another snapshot
 	rng      *Rng
@@ -258,6 +260,7 @@ func (w *World) observe() {
 			w.leaderSeen(c.AE.Term, IDNum(c.AE.LeaderID), "AppendEntries request")
 		} else if c.Kind == "IS" {
 			w.leaderSeen(c.IS.Term, IDNum(c.IS.LeaderID), "InstallSnapshot request")
+			w.checkChunk(c)
 		}
 	}
 	w.checkApplied()
@@ -1171,6 +1174,46 @@ func (w *World) trackMixing() {
 				map[string]string{"oracle": "chunks-exact", "pattern": "chunk-of-other-snapshot-accepted"})
 		}
 	}
+}
+
+// checkChunk: C10/C11 — the bytes an InstallSnapshot request carries are the bytes, at that offset, of a
+// snapshot of the sender that is labelled as the request says (label and content travel together).
+func (w *World) checkChunk(c *Call) {
+	if w.chunkSeen == nil {
+		w.chunkSeen = map[*Call]bool{}
+	}
+	if w.chunkSeen[c] || len(c.IS.Bytes) == 0 {
+		return
+	}
+	w.chunkSeen[c] = true
+	n := w.S.Nodes[c.From]
+	if n == nil || n.Inc != c.FromInc {
+		return // sent by an incarnation that has crashed since: its directory is not observable any more
+	}
+	dir := filepath.Join(n.Dir, "snapshots")
+	ents, _ := os.ReadDir(dir)
+	labelled := 0
+	for _, e := range ents {
+		if !e.IsDir() || !strings.HasPrefix(e.Name(), "snapshot-") {
+			continue
+		}
+		var meta raft.SnapshotMetadata
+		md, err := os.ReadFile(filepath.Join(dir, e.Name(), "metadata.json"))
+		if err != nil || json.Unmarshal(md, &meta) != nil {
+			continue
+		}
+		if meta.LastIncludedIndex != c.IS.LastIncludedIndex || meta.LastIncludedTerm != c.IS.LastIncludedTerm {
+			continue
+		}
+		labelled++
+		data, err := os.ReadFile(filepath.Join(dir, e.Name(), "snapshot.bin"))
+		if err == nil && int64(len(data)) >= c.IS.Offset+int64(len(c.IS.Bytes)) && bytes.Equal(data[c.IS.Offset:c.IS.Offset+int64(len(c.IS.Bytes))], c.IS.Bytes) {
+			return
+		}
+	}
+	w.violate("C10", "an InstallSnapshot request carries bytes that are not the bytes of a snapshot of the sender with the label the request gives",
+		fmt.Sprintf("%s: the sender (node %d) holds %d snapshot(s) labelled (%d,t%d), none has these %d bytes at offset %d", c, c.From, labelled, c.IS.LastIncludedIndex, c.IS.LastIncludedTerm, len(c.IS.Bytes), c.IS.Offset),
+		map[string]string{"oracle": "chunk-belongs-to-label"})
 }
 
 // checkCompaction: C11 — what a log no longer holds is covered by a visible snapshot of that node (a
